@@ -195,6 +195,9 @@ def handle3 (l : Line) : Option String := do
       ("old-vertices-kept", subset vin vout)] ++ geom))
   | "loop3" =>
     let geom := if hasGeom then [("loop-masks", sameTris (loopModel cs inp) (toC3 cs out))] else []
+    if hasGeom && l.params.contains "noninj" then
+      -- the published masks (verified exactly) map two new vertices to the same point on this input
+      return verdict ([("claimed-noninjective", decide (vout.length < vin.length + numE inp))] ++ geom)
     some (verdict (base ++ [("faces=4F", out.length == 4 * inp.length), ("verts=V+E", vout.length == vin.length + numE inp)] ++ geom))
   | "subdivider3" =>
     let k ← (← l.params.head?).toNat?
